@@ -7,7 +7,7 @@
    byte; END_STREAM; header block with its field list; PUSH_PROMISE; PRIORITY;
    RST_STREAM), so framing (fragmentation, padding, splitting) is factored out. *)
 From Coq Require Import List NArith ZArith Bool Ascii.
-From Martian.H2 Require Import Model Spec Proofs_flow Proofs_oracle Proofs_c08 Proofs_misc Proofs_table Proofs_final Proofs_prio.
+From Martian.H2 Require Import Model Spec Proofs_flow Proofs_oracle Proofs_c08 Proofs_misc Proofs_table Proofs_final Proofs_prio Proofs_props Proofs_audit.
 From Martian.C08 Require Import Gen_DestLocks Proofs_gen.
 Import ListNotations.
 
@@ -108,6 +108,49 @@ Print Assumptions C08_relay_accepts_valid_partial.
 Theorem C08_dest_writes_hold_destMu :
   forallb (fun t => snd t) dest_writes = true /\ (7 <=? List.length dest_writes)%nat = true.
 Proof. exact dest_writes_locked. Qed.
+
+(* "however long the receiver's flow-control windows delay delivery": the relay never sends beyond
+   the connection or stream window (a strict receiver would reset), and after every label nothing
+   that fits the windows is held back; with C08_stream_order: what is not yet delivered is exactly
+   the queue, in order, and it moves as soon as the receiver grants enough *)
+Theorem C08_delivered_when_windows_allow : forall ls,
+  single_init ls = true -> P_conn ls (obs_of ls) /\ P_stream ls (obs_of ls) /\ P_strand ls (obs_of ls).
+Proof. exact delivery_under_windows. Qed.
+Print Assumptions C08_delivered_when_windows_allow.
+
+Theorem C08_all_delivered_when_nothing_queued : forall ls,
+  (forall x s, qs_of (getf (sb (final ls)) x) s = []) -> P_complete ls (obs_of ls).
+Proof. exact model_complete. Qed.
+
+(* script level, guarded by the two shapes the pinned Framer cannot read (K2, K3): every
+   RFC-valid script is processed to its last label - the relay never stops, the DATA loop never diverges *)
+Theorem C08_valid_scripts_run_to_the_end_partial : forall ls,
+  rfc_valid ls = true -> no_open_push ls = true -> no_empty_hfrag ls = true ->
+  length (obs_of ls) = length ls.
+Proof. exact valid_scripts_run_to_the_end. Qed.
+Print Assumptions C08_valid_scripts_run_to_the_end_partial.
+
+Theorem C08_rfc_valid_prefix_closed : forall a b, rfc_valid (a ++ b) = true -> rfc_valid a = true.
+Proof. exact rfc_valid_prefix. Qed.
+
+(* oracles used for the concurrent runs (frames not attributed to labels) *)
+Theorem C08_complete_oracle_is_the_property : forall ls o, b_complete ls o = true <-> P_complete ls o.
+Proof. exact b_complete_iff. Qed.
+Theorem C08_final_credit_oracle_is_the_property : forall ls o, b_credit_final ls o = true <-> P_credit_final ls o.
+Proof. exact b_credit_final_iff. Qed.
+Theorem C08_final_credit : forall ls, P_credit_final ls (obs_of ls).
+Proof. exact model_credit_final. Qed.
+Theorem C08_table_oracle_is_the_property : forall ls o, b_table ls o = true <-> P_table ls o.
+Proof. exact b_table_iff. Qed.
+Theorem C08_window_oracles_are_the_property : forall ls o,
+  (b_conn ls o && b_stream ls o && b_strand ls o = true) <-> (P_conn ls o /\ P_stream ls o /\ P_strand ls o).
+Proof. intros. rewrite !andb_true_iff, b_conn_iff, b_stream_iff, b_strand_iff. tauto. Qed.
+
+Example C08_hypotheses_example :
+  rfc_valid w_ex = true /\ no_open_push w_ex = true /\ no_empty_hfrag w_ex = true
+  /\ no_zero_prio w_ex = true /\ single_init w_ex = true
+  /\ forward_preface ["P"; "R"; "I"]%char [["P"]; []; ["R"; "I"; "x"]]%char = Some (["P"; "R"; "I"]%char, [["x"%char]]).
+Proof. vm_compute. repeat split; reflexivity. Qed.
 
 Theorem C08_oracle_is_the_property : forall ls o, c08_ok ls o = true <-> P08 ls o.
 Proof. exact c08_ok_iff. Qed.
